@@ -687,6 +687,20 @@ def r4_consumers(ctx, rule="C05.R4"):
     n = 0
     for rel, qual in sites:
         fn = ctx.fn(rel, qual)
+        # a member drawn with the weightless `choice(seq, weights)` has lost its position: reporting `weights[seq.index(member)]` gives the weight of the FIRST equal
+        # member (equal actions at several positions with different weights) -- the probability has to come from the draw itself (choicew) or from the drawn position
+        drawn = set()
+        for st_ in walk_shallow(fn):
+            if isinstance(st_, ast.Assign) and isinstance(st_.value, ast.Call) and call_tail(st_.value) in ("choice", "choicew"):
+                for t_ in st_.targets:
+                    drawn |= {x.id for x in ([t_] if isinstance(t_, ast.Name) else t_.elts[:1] if isinstance(t_, ast.Tuple) else []) if isinstance(x, ast.Name)}
+                if call_tail(st_.value) == "choice" and len(st_.value.args) + len(st_.value.keywords) >= 2:
+                    n += 1
+        for sub_ in walk_shallow(fn):
+            if isinstance(sub_, ast.Subscript) and isinstance(sub_.slice, ast.Call) and call_tail(sub_.slice) == "index" and sub_.slice.args \
+                    and isinstance(sub_.slice.args[0], ast.Name) and sub_.slice.args[0].id in drawn:
+                ctx.ob(rule, rel, qual, sub_, "the reported probability is not looked up by the drawn member's VALUE (equal members at several positions share the first one's weight)", False,
+                       detail={"lookup": unparse(sub_)})
         for c in walk_shallow(fn):
             is_direct = isinstance(c, ast.Call) and call_tail(c) == "choicew"
             is_mapped = isinstance(c, ast.Call) and call_name(c) == "map" and c.args and isinstance(c.args[0], ast.Attribute) and c.args[0].attr == "choicew"
@@ -719,7 +733,7 @@ def r4_consumers(ctx, rule="C05.R4"):
                     ok = False
                     how += " but the next return does not return this pair"
             ctx.ob(rule, rel, qual, c, "action and reported probability come from one choicew call", ok, detail={"how": how})
-    ctx.floor(rule, "choicew consumer sites", n, 6)
+    ctx.floor(rule, "weighted draw sites in the PMF consumers", n, 6)
 
 
 def _seedish(e):
@@ -795,6 +809,8 @@ def r6_generator_ownership(ctx, rule="C05.R6"):
 
 
 CONTROLS = [
+    ("PMFPredictor reports the weight of the first equal action", "coba/learners/utilities.py", M.replace_stmt("PMFPredictor.predict", lambda st: isinstance(st, ast.Return),
+        "pmf = self._pmfcall(context, actions)\naction = self._pmfrng.choice(actions, pmf)\nreturn (action, pmf[actions.index(action)])"), "C05.R4"),
     ("float predecessor by scaling", RND, M.replace_stmt("_next_below", lambda st: isinstance(st, ast.Return) and "unpack" in ast.unparse(st), "return x * (1 - 2 ** (-53))"), "C05.R3"),
     ("randoms clamps only very narrow ranges", RND, M.replace_expr("CobaRandom.randoms", "min != 0 and n is not None and (min < max)", "min != 0 and n is not None and (min < max) and diff < abs(max) * 2 ** (-30)"), "C05.R3"),
     ("weighted choice through the bound float.__lt__", RND, M.replace_expr("CobaRandom.choice", "partial(lt, next(self._randu) * tot)", "(next(self._randu) * tot).__lt__"), "C05.R3"),
